@@ -115,6 +115,8 @@ def wl_exhaustive(ctx, rng, case):
     ctx.observe("sizes", n)
     ctx.observe("size_mod_8", n % 8)
     idxs = list(range(-2, n + 2)) + [n + 7, n + 8, 8 * math.ceil(n / 8), -n, 10**6, -0.5, -0.999, n - 0.5, n + 0.25, float(n), -1.0]
+    # indices that are a valid position plus / minus a multiple of a machine-word modulus (what a fixed-width index would wrap to)
+    idxs += [w * s + k for w in (2**8, 2**16, 2**32, 2**63, 2**64, 3 * 2**64, 2**128) for s in (1, -1) for k in (0, n - 1, n // 2)]
     nstates = 0
     for st in base_states(n, rng):
         nstates += 1
@@ -154,7 +156,8 @@ def wl_random(ctx, rng, case):
     steps = rng.randint(5, 40) if not huge else 8
     for stepno in range(steps):
         r = rng.random()
-        idx = rng.randint(0, n - 1) if rng.random() < 0.8 else rng.choice([-1, -2, n, n + 1, n + 8, -n, 8 * math.ceil(n / 8)])
+        idx = rng.randint(0, n - 1) if rng.random() < 0.8 else rng.choice([-1, -2, n, n + 1, n + 8, -n, 8 * math.ceil(n / 8), 2**64 + rng.randrange(n), -(2**64) + rng.randrange(n),
+                                                                            2**32 + rng.randrange(n), 2**63 + rng.randrange(n), 3 * 2**64 + rng.randrange(n)])
         if r < 0.3:
             op, val = "set_bit", None
         elif r < 0.5:
